@@ -5,6 +5,8 @@
 package rruntime
 
 import (
+	"github.com/siderolabs/gen/optional"
+
 	"github.com/cosi-project/runtime/pkg/controller"
 	"github.com/cosi-project/runtime/pkg/controller/runtime/internal/reduced"
 	"github.com/cosi-project/runtime/pkg/controller/runtime/metrics"
@@ -14,9 +16,11 @@ import (
 type watchKey struct {
 	Namespace resource.Namespace
 	Type      resource.Type
+	ID        optional.Optional[resource.ID]
 }
 
-func (adapter *Adapter) addWatchFilter(resourceNamespace resource.Namespace, resourceType resource.Type, filter reduced.WatchFilter) {
+// addWatchFilter registers the filter of an input; a nil filter passes every change.
+func (adapter *Adapter) addWatchFilter(dep controller.Input, filter reduced.WatchFilter) {
 	adapter.watchFilterMu.Lock()
 	defer adapter.watchFilterMu.Unlock()
 
@@ -24,29 +28,51 @@ func (adapter *Adapter) addWatchFilter(resourceNamespace resource.Namespace, res
 		adapter.watchFilters = make(map[watchKey]reduced.WatchFilter)
 	}
 
-	adapter.watchFilters[watchKey{resourceNamespace, resourceType}] = filter
+	adapter.watchFilters[watchKey{dep.Namespace, dep.Type, dep.ID}] = filter
 }
 
-func (adapter *Adapter) deleteWatchFilter(resourceNamespace resource.Namespace, resourceType resource.Type) {
+func (adapter *Adapter) deleteWatchFilter(dep controller.Input) {
 	adapter.watchFilterMu.Lock()
 	defer adapter.watchFilterMu.Unlock()
 
-	delete(adapter.watchFilters, watchKey{resourceNamespace, resourceType})
+	delete(adapter.watchFilters, watchKey{dep.Namespace, dep.Type, dep.ID})
 }
 
-// WatchTrigger is called by common controller runtime when there is a change in the watched resources.
+// WatchTrigger is called to notify controller when watched resource is changed.
 func (adapter *Adapter) WatchTrigger(md *reduced.Metadata) {
 	adapter.watchFilterMu.Lock()
 	defer adapter.watchFilterMu.Unlock()
 
-	if adapter.watchFilters != nil {
-		if filter := adapter.watchFilters[watchKey{md.Namespace, md.Typ}]; filter != nil && !filter(md) {
-			// skip reconcile if the event doesn't match the filter
-			return
-		}
+	if !adapter.passesWatchFilters(md) {
+		return
 	}
 
 	adapter.triggerReconcile()
+}
+
+// passesWatchFilters checks the change against every input it matches (by kind and by ID):
+// the controller is notified if any of them asks for it.
+func (adapter *Adapter) passesWatchFilters(md *reduced.Metadata) bool {
+	matched := false
+
+	for _, key := range []watchKey{
+		{md.Namespace, md.Typ, optional.None[resource.ID]()},
+		{md.Namespace, md.Typ, optional.Some(md.ID)},
+	} {
+		filter, ok := adapter.watchFilters[key]
+		if !ok {
+			continue
+		}
+
+		matched = true
+
+		if filter == nil || filter(md) {
+			return true
+		}
+	}
+
+	// no matching input is known (e.g. inputs are being updated): never drop the notification
+	return !matched
 }
 
 func (adapter *Adapter) triggerReconcile() {
